@@ -364,6 +364,10 @@ func (s *Sys) Call(name string) (int, <-chan struct{}) {
 func (s *Sys) Reboot() error {
 	ctx := context.Background()
 	logger := log.Nop()
+	// the old process exits in an orderly way: the persister writes out what it still holds
+	// (conduit's runtime waits for it on exit) before anything is loaded again
+	s.Persister.Flush(ctx)
+	s.Persister.WaitPendingWrites()
 	s.W.Log(Ev{K: "boot"})
 	ps := pipeline.NewService(logger, s.db)
 	cs := connector.NewService(logger, s.db, s.Persister)
